@@ -1706,7 +1706,76 @@ fn mixed_lock_cases(ctx: &mut Ctx) {
     }
 }
 
+/// "a wrong session key returns an error and never plaintext", session keys of every cipher: octet
+/// strings of another length than the cipher's key size are wrong session keys, whatever the cipher's
+/// key schedule would make of them (Blowfish cycles over its key, CAST5 pads short keys with zero octets)
+fn wrong_length_session_keys(ctx: &mut Ctx) {
+    use std::io::Read;
+    let algs = [
+        SymmetricKeyAlgorithm::IDEA, SymmetricKeyAlgorithm::TripleDES, SymmetricKeyAlgorithm::CAST5,
+        SymmetricKeyAlgorithm::Blowfish, SymmetricKeyAlgorithm::AES128, SymmetricKeyAlgorithm::AES192,
+        SymmetricKeyAlgorithm::AES256, SymmetricKeyAlgorithm::Twofish, SymmetricKeyAlgorithm::Camellia128,
+        SymmetricKeyAlgorithm::Camellia192, SymmetricKeyAlgorithm::Camellia256,
+    ];
+    let data = b"wrong length session keys".to_vec();
+    for alg in algs {
+        let n = alg.key_size();
+        // key shapes: random; trailing zero octets; a repeated half
+        let mut shapes: Vec<(&str, Vec<u8>)> = Vec::new();
+        let mut k: Vec<u8> = (0..n).map(|_| ctx.rng.gen::<u8>() | 0x10).collect();
+        shapes.push(("random", k.clone()));
+        for z in 1..=3usize {
+            k[n - z] = 0;
+            shapes.push((["", "zero1", "zero2", "zero3"][z], k.clone()));
+        }
+        let half: Vec<u8> = (0..n / 2).map(|_| ctx.rng.gen::<u8>() | 0x10).collect();
+        shapes.push(("halves", [&half[..], &half[..]].concat()));
+        for (shape, key) in shapes {
+            let built = guarded(|| {
+                let mut rng = rand::thread_rng();
+                let mut mb = MessageBuilder::from_bytes("", data.clone()).seipd_v1(&mut rng, alg);
+                mb.set_session_key(key.clone().into()).ok()?;
+                mb.encrypt_with_password(StringToKey::new_iterated(&mut rng, HashAlgorithm::Sha256, 0), &Password::from("pw")).ok()?;
+                mb.to_vec(&mut rng).ok()
+            });
+            let Ok(Some(msg)) = built else {
+                ctx.stat(&format!("wrong_len_sk:cannot_build:{}", u8::from(alg)));
+                continue;
+            };
+            let open = |cand: &[u8]| -> Option<Vec<u8>> {
+                guarded(|| {
+                    let m = Message::from_bytes(&msg[..]).ok()?;
+                    let mut d = m.decrypt_with_session_key(PlainSessionKey::V3_4 { sym_alg: alg, key: cand.to_vec().into() }).ok()?;
+                    let mut out = Vec::new();
+                    d.read_to_end(&mut out).ok()?;
+                    Some(out)
+                })
+                .ok()
+                .flatten()
+            };
+            let input0 = format!("cipher={} shape={shape} key={} msg={}", u8::from(alg), hx(&key), hx(&msg));
+            ctx.oracle("each_recipient_alone", "Message::decrypt_with_session_key (set_session_key)", &input0, open(&key).as_deref() == Some(&data[..]), "the right session key does not decrypt");
+            let mut cands: Vec<Vec<u8>> = vec![[&key[..], &key[..]].concat(), [&key[..], &key[..], &key[..]].concat(), [&key[..], &[0u8][..]].concat(), key[..n / 2].to_vec()];
+            for z in 1..=4usize {
+                cands.push(key[..n - z].to_vec());
+            }
+            for cand in cands {
+                let got = open(&cand);
+                ctx.stat("wrong_len_sk");
+                ctx.oracle(
+                    "non_recipient_errors",
+                    "Message::decrypt_with_session_key (session key of another length)",
+                    &format!("{input0} presented={}", hx(&cand)),
+                    got.is_none(),
+                    &format!("a session key of {} octets (cipher key size {n}) returned {:?} octets of plaintext", cand.len(), got.as_ref().map(|d| d.len())),
+                );
+            }
+        }
+    }
+}
+
 pub fn run(ctx: &mut Ctx) {
+    wrong_length_session_keys(ctx);
     mixed_lock_cases(ctx);
     long_password_cases(ctx);
     let w = World::new(ctx);
